@@ -5,6 +5,7 @@
 #include "src/lib/str/ares_str.c"
 
 /* ghost index: stands for "every k" in the postconditions (universally quantified by being unconstrained) */
+/* ASSUMED: str.isprint / str.memeq_ci run without --pointer-overflow-check (ghost-indexed clauses made it > 400 s); bounds, pointer validity and all other checks stay on */
 size_t g_k; /* harnesses keep it below the length cap: for g_k >= len every clause that mentions it is trivially true */
 
 /* printable = the real ares_isprint() macro, written out (no macros inside loop-contract text) */
